@@ -81,6 +81,9 @@ type Obligation struct {
 	Query   string
 	known   string
 	candidate string
+	// case split: conditions (return sites) whose disjunction is the guard; when the obligation as a whole
+	// is not decided it is proved once per case (each case adds its condition as a hypothesis)
+	Cases []string
 }
 
 type defEntry struct {
@@ -122,7 +125,10 @@ type VC struct {
 	defCache    map[string]defEntry
 	factCache   map[string]int
 	writeLog    []writeRec
+	indexTerms  []string     // non-constant slice index terms of the executed code (instantiation hints)
 	readLogs    []*[]readRec // active macro expansions: which state components their bodies read
+	calleeSl    map[string]bool
+	retConds    []string     // reach conditions of the return sites of the function under verification (depth 0)
 	catchStack  []*catchCtx // functions with a deferred recover() that are being executed (innermost last)
 	recoverVals []string    // what recover() returns in the deferred closure being executed
 	nextFreeVars []Val      // bindings of the closure about to be executed
@@ -282,6 +288,26 @@ func (vc *VC) cover(base, pos, clause, cond string) {
 func heapKeyField(si *structInfo, i int) string { return "H!" + si.sort + "!" + si.fields[i].name }
 func heapKeyElem(sort string) string            { return "E!" + sanitize(sort) }
 func heapKeyCell(sort string) string            { return "C!" + sanitize(sort) }
+
+// noteIndexTerm remembers a symbolic slice index of the code under verification. Universally quantified
+// contract formulas over an integer are additionally instantiated at these terms: e-matching cannot
+// match an index pattern (+ offset j) against a ground index that arithmetic normalisation has
+// flattened (offset + i + 1), so the instances the proofs need most are supplied explicitly. Adding
+// instances of a universal formula next to it preserves equivalence.
+func (vc *VC) noteIndexTerm(t string) {
+	if isAtom(t) && !strings.ContainsAny(t, "!~") {
+		return // numeric literal
+	}
+	if strings.Contains(t, "!q") {
+		return
+	}
+	for _, x := range vc.indexTerms {
+		if x == t {
+			return
+		}
+	}
+	vc.indexTerms = append(vc.indexTerms, t)
+}
 
 type readRec struct{ tag, term, sort string }
 
